@@ -284,6 +284,14 @@ func crashChild(c *Ctx) error {
 			}
 		},
 	})
+	// a second ground truth for the MANIFEST fsync of addChanges, independent of the hook
+	// placement and of strace: manifest.go's package variable syncFunc is wrapped; the callback
+	// runs only when the production code really calls it (never from inside a hook)
+	badger.VerifWrapManifestSync(func(err error) {
+		l.mu.Lock()
+		l.line("MSYNC %v", err == nil)
+		l.mu.Unlock()
+	})
 	l.mu.Lock()
 	l.line("SESSION reopen=%v first=%d", s.Reopen, s.First)
 	l.mu.Unlock()
@@ -511,6 +519,7 @@ type crashEnv struct {
 	c       *Ctx
 	scratch string
 	seq     int
+	strace  string // when set: the child runs under strace, its output goes to this file (strace.go)
 }
 
 func (e *crashEnv) newDir(tag string) string {
@@ -532,7 +541,11 @@ func (e *crashEnv) runChild(s *crashSpec, killAfter time.Duration) string {
 	crashWriteSpec(s, sp)
 	defer os.Remove(sp)
 	od := filepath.Join(e.scratch, "childout")
-	cmd := exec.Command(os.Args[0], e.c.Prop, "-mode", "child", "-replay", sp, "-out", od, "-n", "0")
+	argv := []string{os.Args[0], e.c.Prop, "-mode", "child", "-replay", sp, "-out", od, "-n", "0"}
+	cmd := exec.Command(argv[0], argv[1:]...)
+	if e.strace != "" {
+		cmd = straceCommand(e.strace, argv)
+	}
 	var so strings.Builder
 	cmd.Stdout, cmd.Stderr = &so, &so
 	if err := cmd.Start(); err != nil {
@@ -823,7 +836,7 @@ func crashOracle(s *crashSpec, total, acked int, po *probeOut) crashVerdict {
 			if found > 0 {
 				v.Sig, v.What = "c08-partial-transaction-visible", fmt.Sprintf("commit %d: %d of %d writes stored, missing (not superseded): %v; newest commit stored: %d", ci, found, len(ws), missing, nmax)
 			} else {
-				v.Sig, v.What = "c08-not-a-commit-prefix", fmt.Sprintf("commit %d is missing while commit %d is stored", ci, nmax)
+				v.Sig, v.What = "c08-not-a-commit-prefix", fmt.Sprintf("commit %d is missing while commit %d is stored (commits up to %d had been acknowledged)", ci, nmax, acked)
 			}
 			return v
 		}
@@ -977,10 +990,75 @@ func crashCE(k string, ver uint64, val uint64) string {
 	return fmt.Sprintf("(mkCE %d %d %d)", crashKeyID(k), ver, val)
 }
 
+// Ground truth for the sync claims of the hook log (C10).  nil = the hooks are trusted (C08: a
+// process kill loses nothing, the sync events do not matter).
+//   clean(seq, name): at event seq the file `name` really is durable in its current content;
+//   dirSync(seq):     the persist.syncdir.done hook with this seq follows a real directory fsync;
+//                     ls = the names durable at that point ("name:size,...").
+// Implementations: *straceTruth (strace.go: the system calls of the child), *hookTruth (strace
+// unavailable: the hooks are trusted except for the MANIFEST fsync of addChanges, which the
+// wrapped syncFunc reports by MSYNC lines).
+type crashTruth interface {
+	clean(seq int, name string) bool
+	dirSync(seq int) (ls string, ok bool)
+}
+
+type hookTruth struct {
+	evs        []crashEvent
+	manifestOK map[int]bool // seq of persist.manifest.done -> syncFunc was really called after the write
+}
+
+// every persist.manifest.done that follows a persist.manifest.written (an appended change set)
+// needs an MSYNC line in between (addChanges is serialised by appendLock)
+func crashManifestSyncs(evs []crashEvent) map[int]bool {
+	out := map[int]bool{}
+	written, synced := false, false
+	for _, ev := range evs {
+		switch {
+		case ev.Kind == "MSYNC":
+			synced = strings.TrimSpace(ev.Rest) == "true"
+		case ev.Kind == "H" && ev.Name == "persist.manifest.written":
+			written, synced = true, false
+		case ev.Kind == "H" && ev.Name == "persist.manifest.done":
+			out[ev.Seq] = !written || synced
+			written, synced = false, false
+		}
+	}
+	return out
+}
+
+func newHookTruth(evs []crashEvent) *hookTruth {
+	return &hookTruth{evs: evs, manifestOK: crashManifestSyncs(evs)}
+}
+
+func (h *hookTruth) clean(seq int, name string) bool {
+	if name == "MANIFEST" {
+		if ok, known := h.manifestOK[seq]; known {
+			return ok
+		}
+	}
+	return true
+}
+
+func (h *hookTruth) dirSync(seq int) (string, bool) {
+	for i, ev := range h.evs {
+		if ev.Seq == seq && i+1 < len(h.evs) && h.evs[i+1].Kind == "LS" {
+			return h.evs[i+1].Rest, true
+		}
+	}
+	return "", true
+}
+
 // builds the trace of the events with Seq <= upto (0 = all) after OPEN-DONE.
 // version of commit i is assumed to be i (fresh database, sequential commits); the caller
 // checks that against the versions the probe reports.
-func crashBuildTrace(s *crashSpec, evs []crashEvent, upto int) *crashTrace {
+// gt != nil (C10): a SyncFile / SyncDir event is emitted only where the ground truth confirms
+// the sync the hook claims, so a trace with a missing sync is a trace WITHOUT that event and the
+// protocol guard of Persist.v decides (e.g. Truncate0/Unlink of a WAL needs its table in the
+// MANIFEST as of the last MANIFEST fsync; the next change set needs the previous one synced).
+func crashBuildTrace(s *crashSpec, evs []crashEvent, upto int, gt crashTruth) *crashTrace {
+	clean := func(seq int, name string) bool { return gt == nil || gt.clean(seq, name) }
+	curSeq := 0
 	var walcurP, vlogcurP func() uint64
 	t := &crashTrace{ok: true, walOf: map[int]uint64{}, vlogOf: map[int]uint64{}, kinds: map[string]int{}, wals: map[uint64]bool{1: true}}
 	defer func() { t.walcur, t.vlogcur = walcurP(), vlogcurP() }()
@@ -1038,7 +1116,7 @@ func crashBuildTrace(s *crashSpec, evs []crashEvent, upto int) *crashTrace {
 		if fid <= vlogcur {
 			return
 		}
-		if s.Sync {
+		if s.Sync && clean(curSeq, fmt.Sprintf("%06d.vlog", vlogcur)) {
 			emit(fmt.Sprintf("PE (SyncFile (Vlog %d))", vlogcur))
 		}
 		vlogcur = fid
@@ -1098,6 +1176,7 @@ func crashBuildTrace(s *crashSpec, evs []crashEvent, upto int) *crashTrace {
 			}
 			continue
 		}
+		curSeq = ev.Seq
 		if ev.Kind == "LS" {
 			continue
 		}
@@ -1126,7 +1205,9 @@ func crashBuildTrace(s *crashSpec, evs []crashEvent, upto int) *crashTrace {
 					}
 					emit(fmt.Sprintf("PE (Append (Sst %d) (IT (%s, %s)))", id, c.ent, c.ptr))
 				}
-				emit(fmt.Sprintf("PE (SyncFile (Sst %d))", id))
+				if clean(ev.Seq, fmt.Sprintf("%06d.sst", id)) {
+					emit(fmt.Sprintf("PE (SyncFile (Sst %d))", id))
+				}
 			}
 			pendingCompacts = append(pendingCompacts, cp)
 			t.kinds["compaction"]++
@@ -1167,7 +1248,9 @@ func crashBuildTrace(s *crashSpec, evs []crashEvent, upto int) *crashTrace {
 			}
 			cells[r] = cs
 		case "persist.vlog.synced":
-			emit(fmt.Sprintf("PE (SyncFile (Vlog %d))", ev.Args[0]))
+			if clean(ev.Seq, fmt.Sprintf("%06d.vlog", ev.Args[0])) {
+				emit(fmt.Sprintf("PE (SyncFile (Vlog %d))", ev.Args[0]))
+			}
 		case "persist.vlog.created":
 			ensureVlog(ev.Args[0])
 		case "persist.wal.put":
@@ -1195,7 +1278,7 @@ func crashBuildTrace(s *crashSpec, evs []crashEvent, upto int) *crashTrace {
 			}
 		case "persist.wal.request-done":
 			nReqDone++
-			if s.Sync {
+			if s.Sync && clean(ev.Seq, fmt.Sprintf("%05d.mem", walcur)) {
 				emit(fmt.Sprintf("PE (SyncFile (Wal %d))", walcur))
 			}
 		case "persist.batch.ack":
@@ -1233,7 +1316,9 @@ func crashBuildTrace(s *crashSpec, evs []crashEvent, upto int) *crashTrace {
 				}
 			}
 			pendingFlush = true
-			emit(fmt.Sprintf("PE (SyncFile (Sst %d))", id))
+			if clean(ev.Seq, fmt.Sprintf("%06d.sst", id)) {
+				emit(fmt.Sprintf("PE (SyncFile (Sst %d))", id))
+			}
 		case "persist.manifest.before-write":
 			// addChanges is serialised: the change set is the flusher's (one create: 14 bytes with
 			// the default compression) or a compactor's (at least two changes)
@@ -1269,7 +1354,9 @@ func crashBuildTrace(s *crashSpec, evs []crashEvent, upto int) *crashTrace {
 			}
 			manifestIs = ""
 		case "persist.manifest.done":
-			emit("PE (SyncFile Manifest)")
+			if clean(ev.Seq, "MANIFEST") {
+				emit("PE (SyncFile Manifest)")
+			}
 		case "persist.compact.built", "persist.compact.manifest":
 		case "persist.compact.installed":
 			// the LS line of the same hook call: input tables that are gone have been removed
@@ -1294,10 +1381,18 @@ func crashBuildTrace(s *crashSpec, evs []crashEvent, upto int) *crashTrace {
 				}
 			}
 		case "persist.syncdir.done":
-			if i+1 < len(evs) && evs[i+1].Kind == "LS" {
-				createListed(evs[i+1].Rest)
+			if gt != nil {
+				// the names the real directory fsync covered (not the listing read after the hook)
+				if ls, ok := gt.dirSync(ev.Seq); ok {
+					createListed(ls)
+					emit("PE SyncDir")
+				}
+			} else {
+				if i+1 < len(evs) && evs[i+1].Kind == "LS" {
+					createListed(evs[i+1].Rest)
+				}
+				emit("PE SyncDir")
 			}
-			emit("PE SyncDir")
 		default:
 			fail("hook not covered by the translation: " + ev.Name)
 			return t
@@ -1600,7 +1695,7 @@ func (e *crashEnv) killJob(k int, wl crashWorkload, mech string, rng *rand.Rand,
 	}
 	var pre *crashTrace
 	if wl.model && mech != "sigkill" {
-		pre = crashBuildTrace(&s, evs, 0)
+		pre = crashBuildTrace(&s, evs, 0, nil)
 		opened := false
 		for _, ev := range evs {
 			if ev.Kind == "OPEN-DONE" {
@@ -1877,12 +1972,14 @@ func crashDurableNames(evs []crashEvent, cut int) []string {
 	return out
 }
 
-// builds the directory a power loss at event `cut` leaves behind
-func crashMaterialise(evs []crashEvent, snapDir string, idx crashSnapIndex, cut int, img string) (names []string, synced map[string]int) {
+// builds the directory a power loss at event `cut` leaves behind.  durable: the names that
+// survive (hook log: crashDurableNames; strace ground truth: straceTruth.durableNames); idx: the
+// snapshots that count as durable content (with a ground truth: only the validated ones)
+func crashMaterialise(durable []string, snapDir string, idx crashSnapIndex, cut int, img string) (names []string, synced map[string]int) {
 	os.RemoveAll(img)
 	os.MkdirAll(img, 0o755)
 	synced = map[string]int{}
-	for _, n := range crashDurableNames(evs, cut) {
+	for _, n := range durable {
 		if n == "LOCK" {
 			continue
 		}
@@ -1904,6 +2001,158 @@ func crashMaterialise(evs []crashEvent, snapDir string, idx crashSnapIndex, cut 
 	return
 }
 
+// one SyncWrites workload run of the C10 check with everything derived from it
+type crashPowerRun struct {
+	wl     crashWorkload
+	s      crashSpec
+	evs    []crashEvent
+	idx    crashSnapIndex // every snapshot the child took (one per sync claim of a hook)
+	vidx   crashSnapIndex // the snapshots that count as durable content (validated by the ground truth)
+	cuts   []int
+	dir    string
+	childR string
+	st     *straceTruth // nil: strace unavailable
+	gt     crashTruth
+	claims []crashClaim
+	err    error
+}
+
+// a hook of the log that the harness treats as "file F (or the directory) is durable up to here"
+type crashClaim struct {
+	seq   int
+	name  string // file name; "" for the directory
+	kind  string // wal, vlog, table, manifest, manifest-at-open, keyregistry, dir, ack-wal, ack-vlog
+	hook  string
+	ok    bool
+	why   string
+	v     stVerdict
+	msync string // MANIFEST: what the wrapped syncFunc says ("", "called", "NOT called")
+}
+
+func crashClaimKind(name, hook string) string {
+	switch {
+	case strings.HasSuffix(name, ".mem"):
+		return "wal"
+	case strings.HasSuffix(name, ".vlog"):
+		return "vlog"
+	case strings.HasSuffix(name, ".sst"):
+		return "table"
+	case name == "MANIFEST" && hook == "OPEN-DONE":
+		return "manifest-at-open"
+	case name == "MANIFEST":
+		return "manifest"
+	case name == "KEYREGISTRY":
+		return "keyregistry"
+	}
+	return "other"
+}
+
+// The sync claims of one hook log, each checked against the ground truth.  File claims are
+// exactly the snapshots the child took (crashLogger.point / crashChild):
+//   persist.wal.request-done   -> the current WAL was msynced (memTable.SyncWAL)          [wal]
+//   persist.vlog.synced fid    -> value-log file fid was msynced (valueLog.write, deferred) [vlog]
+//   persist.vlog.created fid   -> file fid-1 was msynced by doneWriting before the rotation [vlog]
+//   persist.flush.table id     -> table id was msynced by table.CreateTable                [table]
+//   COMPACT (NewTables)        -> every compaction output was msynced by CreateTable       [table]
+//   persist.manifest.done      -> the MANIFEST was fsynced after the appended change set   [manifest]
+//   OPEN-DONE                  -> Open wrote + fsynced MANIFEST (helpRewrite: MANIFEST-REWRITE,
+//                                 fsync, rename) and KEYREGISTRY (O_DSYNC write, rename)   [manifest-at-open, keyregistry]
+//   persist.syncdir.done       -> the directory was fsynced (names durable)                [dir]
+// and, with strace, at every persist.batch.ack: the WALs / value-log files written since the
+// previous acknowledgement are clean                                            [ack-wal, ack-vlog]
+func (run *crashPowerRun) checkClaims() {
+	evBySeq := map[int]crashEvent{}
+	for _, ev := range run.evs {
+		evBySeq[ev.Seq] = ev
+	}
+	msyncOK := crashManifestSyncs(run.evs)
+	var claims []crashClaim
+	for name, seqs := range run.idx {
+		for _, sq := range seqs {
+			ev := evBySeq[sq]
+			hook := ev.Name
+			if ev.Kind != "H" {
+				hook = ev.Kind
+			}
+			cl := crashClaim{seq: sq, name: name, hook: hook, kind: crashClaimKind(name, hook)}
+			if name == "MANIFEST" && hook == "persist.manifest.done" {
+				cl.msync = "called"
+				if !msyncOK[sq] {
+					cl.msync = "NOT called"
+				}
+			}
+			if run.st != nil {
+				cl.v = run.st.cleanV(sq, name)
+				cl.ok, cl.why = cl.v.ok, cl.v.why
+			} else {
+				cl.ok = run.gt.clean(sq, name)
+				if !cl.ok {
+					cl.why = "manifest.go syncFunc was not called between the write of the change set and the hook (no MSYNC line)"
+				}
+			}
+			claims = append(claims, cl)
+		}
+	}
+	if run.st != nil {
+		touched := map[string]string{}
+		for _, ev := range run.evs {
+			if ev.Kind != "H" {
+				continue
+			}
+			switch ev.Name {
+			case "persist.syncdir.done":
+				cl := crashClaim{seq: ev.Seq, kind: "dir", hook: ev.Name}
+				_, cl.ok = run.st.dirSync(ev.Seq)
+				cl.v = stVerdict{pos: run.st.marker[ev.Seq], lastDirty: run.st.marker[ev.Seq] - 60, obj: -1}
+				if !cl.ok {
+					cl.why = "no completed fsync of the database directory before the hook's marker that an earlier persist.syncdir.done has not already claimed"
+				}
+				claims = append(claims, cl)
+			case "persist.wal.put":
+				if n := run.st.putWal[ev.Seq]; n != "" {
+					touched[n] = "ack-wal"
+				}
+			case "persist.vlog.written":
+				if len(ev.Args) == 3 && ev.Args[2] > 0 {
+					touched[fmt.Sprintf("%06d.vlog", ev.Args[0])] = "ack-vlog"
+				}
+			case "persist.batch.ack":
+				for n, k := range touched {
+					cl := crashClaim{seq: ev.Seq, name: n, kind: k, hook: ev.Name}
+					cl.v = run.st.cleanV(ev.Seq, n)
+					cl.ok, cl.why = cl.v.ok, cl.v.why
+					claims = append(claims, cl)
+				}
+				touched = map[string]string{}
+			}
+		}
+	}
+	sort.Slice(claims, func(a, b int) bool {
+		if claims[a].seq != claims[b].seq {
+			return claims[a].seq < claims[b].seq
+		}
+		return claims[a].name < claims[b].name
+	})
+	run.claims = claims
+	// durable content = the validated snapshots only
+	run.vidx = crashSnapIndex{}
+	for _, cl := range claims {
+		if cl.ok && cl.name != "" && !strings.HasPrefix(cl.kind, "ack-") {
+			run.vidx[cl.name] = append(run.vidx[cl.name], cl.seq)
+		}
+	}
+	for k := range run.vidx {
+		sort.Ints(run.vidx[k])
+	}
+}
+
+func (run *crashPowerRun) durableNames(cut int) []string {
+	if run.st != nil {
+		return run.st.durableNames(cut)
+	}
+	return crashDurableNames(run.evs, cut)
+}
+
 func crashRunPower(c *Ctx, e *crashEnv, fixDir, fixZero bool) error {
 	wls := []crashWorkload{
 		{"sync-novlog", crashSpec{Sync: true, NCommits: 140, MemSize: 8 << 10, DelEvery: 6, Snap: true}, true, false},
@@ -1911,14 +2160,20 @@ func crashRunPower(c *Ctx, e *crashEnv, fixDir, fixZero bool) error {
 		{"sync-batch-compact", crashSpec{Sync: true, Batch: true, NCommits: 300, MemSize: 8 << 10, NumComp: 2, DelEvery: 5, Snap: true}, false, false},
 		{"sync-compact", crashSpec{Sync: true, NCommits: 220, MemSize: 8 << 10, BigEvery: 4, BigSize: 300, CompactEvery: 45, Snap: true}, true, false},
 	}
-	type runT struct {
-		s    crashSpec
-		evs  []crashEvent
-		idx  crashSnapIndex
-		cuts []int
-		dir  string
+	// ground truth: the system calls of the workload children (strace.go)
+	straceOK, straceVer := false, "disabled by VERIF_NO_STRACE"
+	if os.Getenv("VERIF_NO_STRACE") == "" {
+		straceOK, straceVer = straceProbe(e.scratch)
 	}
-	runs := make([]runT, len(wls))
+	straceInfo := crashJ{"version": straceVer}
+	if straceOK {
+		c.Extra["strace"] = straceInfo
+	} else {
+		c.Extra["strace"] = "unavailable"
+		c.Extra["strace_unavailable_because"] = straceVer
+		c.Extra["ground_truth"] = "NONE for msync/fsync/directory fsync (hooks trusted); MANIFEST fsync of addChanges: wrapped syncFunc (MSYNC lines)"
+	}
+	runs := make([]*crashPowerRun, len(wls))
 	var wg sync.WaitGroup
 	for i := range wls {
 		wg.Add(1)
@@ -1931,20 +2186,58 @@ func crashRunPower(c *Ctx, e *crashEnv, fixDir, fixZero bool) error {
 			s.Dir, s.EventLog, s.SnapDir, s.First = filepath.Join(dir, "db"), filepath.Join(dir, "ev.log"), filepath.Join(dir, "snap"), 1
 			e2 := *e
 			e2.scratch = dir
-			e2.runChild(&s, 0)
-			runs[i] = runT{s: s, evs: crashReadLog(s.EventLog), idx: crashIndexSnaps(s.SnapDir), dir: dir}
+			run := &crashPowerRun{wl: wls[i], s: s, dir: dir}
+			runs[i] = run
+			if straceOK {
+				e2.strace = filepath.Join(dir, "strace.txt")
+			}
+			run.childR = e2.runChild(&s, 0)
+			run.evs, run.idx = crashReadLog(s.EventLog), crashIndexSnaps(s.SnapDir)
+			if straceOK {
+				st, err := straceLoad(e2.strace, s.Dir, s.EventLog)
+				if err != nil {
+					run.err = fmt.Errorf("workload %s: reading the strace output: %v", wls[i].name, err)
+					return
+				}
+				st.finish(run.evs)
+				// the phase must not be vacuous: every line of the event log is a marker in the trace
+				missing := 0
+				for _, ev := range run.evs {
+					if _, ok := st.marker[ev.Seq]; !ok {
+						missing++
+					}
+				}
+				if run.childR != "exit 0" || len(run.evs) == 0 || missing > 0 {
+					run.err = fmt.Errorf("workload %s under strace: child %q, %d event-log lines, %d of them without a marker write in the system-call trace (%d system calls parsed): the ground-truth phase would be vacuous",
+						wls[i].name, run.childR, len(run.evs), missing, st.nCalls)
+					return
+				}
+				run.st, run.gt = st, st
+			} else {
+				run.gt = newHookTruth(run.evs)
+			}
+			run.checkClaims()
 		}(i)
 	}
 	wg.Wait()
+	for _, run := range runs {
+		if run.err != nil {
+			return run.err // harness error (not a property violation)
+		}
+	}
 	info := crashJ{}
-	// cut points: every rare hook, the first acknowledgement after it, then random hooks
+	// cut points: first the points where a deletion has become durable (everything that was
+	// deleted must have been replaced by something synced: the ground truth decides), every rare
+	// hook, the first acknowledgement after it, then random hooks
 	perWl := (c.N + len(wls) - 1) / len(wls)
-	for i := range runs {
-		evs := runs[i].evs
+	for i, run := range runs {
+		evs := run.evs
 		var all, rare []int
+		var prio [][2]int // (directory fsync that made a deletion durable, first acknowledgement after it)
 		opened := false
-		wantAck := false
+		wantAck, wantAckPrio := false, false
 		h := map[string]int{}
+		var prevDurable []string
 		for _, ev := range evs {
 			if ev.Kind == "OPEN-DONE" {
 				opened = true
@@ -1961,20 +2254,50 @@ func crashRunPower(c *Ctx, e *crashEnv, fixDir, fixZero bool) error {
 					isRare = true
 				}
 			}
+			if ev.Name == "persist.syncdir.done" {
+				now := run.durableNames(ev.Seq)
+				for _, n := range prevDurable {
+					gone := true
+					for _, m := range now {
+						if m == n {
+							gone = false
+						}
+					}
+					if gone && n != "LOCK" {
+						prio = append(prio, [2]int{ev.Seq, 0})
+						wantAckPrio = true
+						break
+					}
+				}
+				prevDurable = now
+			}
 			if isRare {
 				rare = append(rare, ev.Seq)
 				wantAck = true
-			} else if wantAck && ev.Name == "persist.batch.ack" {
-				rare = append(rare, ev.Seq)
-				wantAck = false
+			} else if ev.Name == "persist.batch.ack" {
+				if wantAckPrio {
+					prio[len(prio)-1][1] = ev.Seq
+				} else if wantAck {
+					rare = append(rare, ev.Seq)
+				}
+				wantAck, wantAckPrio = false, false
 			}
 		}
-		info[wls[i].name] = crashJ{"hooks": h, "events": len(evs), "snapshots": len(runs[i].idx)}
 		if len(all) == 0 {
 			return fmt.Errorf("workload %s logged no persistence hook", wls[i].name)
 		}
 		seen := map[int]bool{}
 		var cuts []int
+		c.Rng.Shuffle(len(prio), func(a, b int) { prio[a], prio[b] = prio[b], prio[a] })
+		for _, pr := range prio {
+			for _, sq := range pr {
+				if sq > 0 && len(cuts) < perWl/3 && !seen[sq] {
+					cuts = append(cuts, sq)
+					seen[sq] = true
+				}
+			}
+		}
+		nPrio := len(cuts)
 		c.Rng.Shuffle(len(rare), func(a, b int) { rare[a], rare[b] = rare[b], rare[a] })
 		for _, sq := range rare {
 			if len(cuts) < perWl*2/3 && !seen[sq] {
@@ -1990,7 +2313,22 @@ func crashRunPower(c *Ctx, e *crashEnv, fixDir, fixZero bool) error {
 			}
 		}
 		sort.Ints(cuts)
-		runs[i].cuts = cuts
+		run.cuts = cuts
+		wi := crashJ{"hooks": h, "events": len(evs), "snapshots": len(run.idx), "cuts_after_a_durable_deletion": nPrio}
+		if run.st != nil {
+			st := run.st
+			nsnap, nvalid := 0, 0
+			for _, v := range run.idx {
+				nsnap += len(v)
+			}
+			for _, v := range run.vidx {
+				nvalid += len(v)
+			}
+			wi["strace"] = crashJ{"lines": len(st.lines), "system_calls": st.nCalls, "markers": len(st.marker), "msync": st.nMsync,
+				"fsync": st.nFsync, "directory_fsyncs": len(st.dirSyncs), "file_objects": len(st.objs),
+				"msync_on_untracked_mapping": st.unmapped, "snapshots_taken": nsnap, "snapshots_durable": nvalid, "notes": st.parseNotes}
+		}
+		info[wls[i].name] = wi
 	}
 	c.Extra["workload_runs"] = info
 
@@ -2009,17 +2347,18 @@ func crashRunPower(c *Ctx, e *crashEnv, fixDir, fixZero bool) error {
 		go func(ji int, j job) {
 			defer wg.Done()
 			defer func() { <-sem }()
-			results[ji] = e.powerJob(ji, wls[j.wl], &runs[j.wl].s, runs[j.wl].evs, runs[j.wl].idx, j.cut, fixDir, fixZero)
+			results[ji] = e.powerJob(ji, runs[j.wl], j.cut, fixDir, fixZero)
 		}(ji, j)
 	}
 	wg.Wait()
-	for i := range runs {
-		os.RemoveAll(runs[i].dir)
-	}
 	skips := map[string]int{}
+	namesDiffer := 0
 	for _, r := range results {
 		c.Count("workload:" + r.wl)
 		c.Count("cut-at:" + fmt.Sprint(r.desc["hook"]))
+		if r.desc["hook_log_names_differ"] != nil {
+			namesDiffer++
+		}
 		replay := crashJ{"workload": r.wl, "point": r.desc, "acked": r.acked, "issued": r.issued, "recovered_prefix": r.verdict.N}
 		c.Oracle(r.sig == "", r.sig, r.what, replay)
 		if r.term != "" {
@@ -2028,11 +2367,72 @@ func crashRunPower(c *Ctx, e *crashEnv, fixDir, fixZero bool) error {
 			skips[r.skipWhy]++
 		}
 	}
+	// the claims oracle: one evaluation per workload and claim kind
+	msyncDisagree := 0
+	for _, run := range runs {
+		byKind := map[string][]crashClaim{}
+		var kinds []string
+		for _, cl := range run.claims {
+			if _, ok := byKind[cl.kind]; !ok {
+				kinds = append(kinds, cl.kind)
+			}
+			byKind[cl.kind] = append(byKind[cl.kind], cl)
+			if cl.msync == "NOT called" && cl.ok {
+				msyncDisagree++
+			}
+		}
+		sort.Strings(kinds)
+		for _, k := range kinds {
+			var bad []crashClaim
+			for _, cl := range byKind[k] {
+				c.Count("sync-claim:" + k)
+				if !cl.ok {
+					bad = append(bad, cl)
+				}
+			}
+			if len(bad) == 0 {
+				c.Oracle(true, "", "", nil)
+				continue
+			}
+			b := bad[0]
+			sig := "c10-hook-claims-sync-but-no-sync-syscall:" + k
+			what := fmt.Sprintf("workload %s: %d of %d claims of kind %s have no real sync; first: event %d (%s) treats %s as durable: %s",
+				run.wl.name, len(bad), len(byKind[k]), k, b.seq, b.hook, b.name, b.why)
+			if strings.HasPrefix(k, "ack-") {
+				sig = "c10-ack-before-sync:" + strings.TrimPrefix(k, "ack-")
+				what = fmt.Sprintf("workload %s: %d of %d acknowledgements precede the sync of a file they depend on; first: event %d acknowledges requests written to %s: %s",
+					run.wl.name, len(bad), len(byKind[k]), b.seq, b.name, b.why)
+			}
+			if run.st == nil {
+				sig = "c10-hook-claims-sync-but-syncfunc-not-called:" + k
+			}
+			replay := crashJ{"workload": run.wl.name, "event_seq": b.seq, "hook": b.hook, "file": b.name, "failing_claims": len(bad), "claims": len(byKind[k])}
+			if b.msync != "" {
+				replay["wrapped_syncFunc"] = b.msync
+			}
+			if run.st != nil && b.v.pos > 0 {
+				from := b.v.lastDirty - 6
+				if b.v.pos-from > 400 {
+					from = b.v.pos - 400
+				}
+				replay["syscall_window"] = run.st.window(from, b.v.pos+2, 40)
+			}
+			c.Oracle(false, sig, what, replay)
+		}
+	}
+	if straceOK {
+		straceInfo["cuts_where_hook_listing_and_fsynced_names_differ"] = namesDiffer
+		straceInfo["manifest_syncs_seen_by_strace_but_not_by_wrapped_syncFunc"] = msyncDisagree
+	}
+	for i := range runs {
+		os.RemoveAll(runs[i].dir)
+	}
 	c.Extra["correspondence_skipped"] = skips
 	return nil
 }
 
-func (e *crashEnv) powerJob(k int, wl crashWorkload, s *crashSpec, evs []crashEvent, idx crashSnapIndex, cut int, fixDir, fixZero bool) crashResult {
+func (e *crashEnv) powerJob(k int, run *crashPowerRun, cut int, fixDir, fixZero bool) crashResult {
+	wl, s, evs := run.wl, &run.s, run.evs
 	r := crashResult{k: k, wl: wl.name, mech: "power-loss"}
 	hook := ""
 	for _, ev := range evs {
@@ -2047,8 +2447,39 @@ func (e *crashEnv) powerJob(k int, wl crashWorkload, s *crashSpec, evs []crashEv
 	os.MkdirAll(dir, 0o755)
 	defer os.RemoveAll(dir)
 	img := filepath.Join(dir, "db")
-	names, synced := crashMaterialise(evs, s.SnapDir, idx, cut, img)
+	names, synced := crashMaterialise(run.durableNames(cut), s.SnapDir, run.vidx, cut, img)
 	r.desc = crashJ{"cut_seq": cut, "hook": hook, "durable_names": names, "synced_at": synced}
+	if run.st != nil {
+		r.desc["ground_truth"] = "strace: names of the last completed fsync of the directory; a snapshot counts only if a real sync covers the file's last modification"
+		hn := map[string]bool{}
+		for _, n := range crashDurableNames(evs, cut) {
+			if n != "LOCK" {
+				hn[n] = true
+			}
+		}
+		same := len(hn) == len(names)
+		for _, n := range names {
+			same = same && hn[n]
+		}
+		if !same {
+			r.desc["hook_log_names_differ"] = crashDurableNames(evs, cut)
+		}
+	} else {
+		r.desc["ground_truth"] = "hook log; MANIFEST snapshots only where the wrapped syncFunc was called"
+	}
+	var notDurable []string
+	var firstBad *crashClaim
+	for i, cl := range run.claims {
+		if !cl.ok && cl.seq <= cut && cl.name != "" && !strings.HasPrefix(cl.kind, "ack-") && len(notDurable) < 12 {
+			notDurable = append(notDurable, fmt.Sprintf("%s@%d (%s)", cl.name, cl.seq, cl.hook))
+			if firstBad == nil {
+				firstBad = &run.claims[i]
+			}
+		}
+	}
+	if len(notDurable) > 0 {
+		r.desc["snapshots_rejected_no_real_sync"] = notDurable
+	}
 	r.acked, r.issued = crashAcked(evs, cut)
 	ps := *s
 	ps.Dir = img
@@ -2078,8 +2509,31 @@ func (e *crashEnv) powerJob(k int, wl crashWorkload, s *crashSpec, evs []crashEv
 		case "c08-acked-commit-lost":
 			lost := r.verdict.N + 1
 			if f, ok := walOf[lost]; ok && !has(fmt.Sprintf("%05d.mem", f)) {
-				r.sig = "F9-acked-commit-lost-wal-name-not-dirsynced"
-				r.what += fmt.Sprintf("; its WAL %05d.mem was created without a directory fsync", f)
+				// was the name ever covered by a directory fsync? If it was and is gone again, the
+				// WAL has been deleted: the loss is not the F9 defect
+				ever := false
+				wn := fmt.Sprintf("%05d.mem", f)
+				if run.st != nil {
+					for _, d := range run.st.dirSyncs {
+						for _, n := range d.names {
+							if n == wn && d.exit < run.st.marker[cut] {
+								ever = true
+							}
+						}
+					}
+				} else {
+					for i, ev := range evs {
+						if ev.Seq <= cut && ev.Kind == "H" && ev.Name == "persist.syncdir.done" && i+1 < len(evs) && evs[i+1].Kind == "LS" && crashHas(evs[i+1].Rest, wn) {
+							ever = true
+						}
+					}
+				}
+				if !ever {
+					r.sig = "F9-acked-commit-lost-wal-name-not-dirsynced"
+					r.what += fmt.Sprintf("; its WAL %05d.mem was created without a directory fsync", f)
+				} else {
+					r.what += fmt.Sprintf("; its WAL %05d.mem has been deleted (durably) and no synced MANIFEST state lists a table holding the commit", f)
+				}
 			}
 		case "c08-value-unreadable":
 			// which commit? the one whose vlog file name is not durable
@@ -2095,11 +2549,40 @@ func (e *crashEnv) powerJob(k int, wl crashWorkload, s *crashSpec, evs []crashEv
 			r.sig = "c10-" + r.sig[4:]
 		}
 	}
+	if r.sig != "" && run.st != nil {
+		if firstBad != nil && firstBad.v.pos > 0 {
+			from := firstBad.v.lastDirty - 6
+			if firstBad.v.pos-from > 300 {
+				from = firstBad.v.pos - 300
+			}
+			r.desc["syscall_window_of_the_first_rejected_snapshot"] = run.st.window(from, firstBad.v.pos+2, 30)
+		}
+		if pos, ok := run.st.marker[cut]; ok {
+			r.desc["syscall_window_before_the_cut"] = run.st.window(pos-70, pos, 30)
+		}
+	}
 	if !wl.model {
 		r.skipWhy = "workload with compaction: oracle only"
 		return r
 	}
-	t := crashBuildTrace(s, evs, cut)
+	if run.st != nil {
+		// the trace gets its SyncDir events at the persist.syncdir.done hooks; a directory fsync
+		// that completed before the cut while its hook had not yet fired is in the image only
+		claimed := -1
+		for _, ev := range evs {
+			if ev.Seq > cut {
+				break
+			}
+			if i, ok := run.st.dirClaim[ev.Seq]; ok && i > claimed {
+				claimed = i
+			}
+		}
+		if run.st.lastDirSync(cut) > claimed {
+			r.skipWhy = "a directory fsync had completed whose hook had not fired at the cut"
+			return r
+		}
+	}
+	t := crashBuildTrace(s, evs, cut, run.gt)
 	if !t.ok {
 		r.skipWhy = t.why
 		return r
